@@ -395,6 +395,55 @@ class Repo(object):
   def lookup_method(self, m, clsname, meth):
     return self._lookup_method(m, clsname, meth)
 
+  def flat_class(self, m, clsname):
+    """The class as its instances behave: every method it defines or inherits
+    (from classes of the same module), with calls of its own helper methods
+    (`self._hook(..)`, resolved for THIS class) read in place.  A template
+    method in a base class with hooks overridden per subclass is thereby the
+    same as the spelled-out method the rules were written against."""
+    key = (m.relpath, clsname)
+    cache = self.__dict__.setdefault('_flat', {})
+    if key in cache:
+      return cache[key]
+    ci = m.classes.get(clsname)
+    if ci is None:
+      raise AnalysisError('anchor missing: class %s in %s' % (clsname, m.relpath))
+    # effective methods along the inheritance chain (own first)
+    eff, order, seen = {}, [ci], {clsname}
+    i = 0
+    while i < len(order):
+      c = order[i]
+      i += 1
+      for name, fi in c.methods.items():
+        eff.setdefault(name, fi)
+      for b in c.bases:
+        if b in m.classes and b not in seen:
+          seen.add(b)
+          order.append(m.classes[b])
+    if len(order) == 1:
+      cache[key] = ci
+      return ci
+    from . import inline
+    body = [clone(fi.node) for fi in eff.values()]
+    cd = ast.ClassDef(name=clsname, bases=[], keywords=[], body=body, decorator_list=[])
+    tree = ast.Module(body=[cd], type_ignores=[])
+    ast.fix_missing_locations(tree)
+    public = {n for n in eff if not n.startswith('_') or n.startswith('__')}
+    helpers = {'%s.%s' % (clsname, n) for n in eff if n not in public}
+    inl = inline.Inliner(tree, helpers, set())
+    inl.run()
+    flat = ClassInfo(m, clsname, cd)
+    for st in cd.body:
+      if isinstance(st, (ast.FunctionDef, ast.AsyncFunctionDef)):
+        f2 = FuncInfo(m, '%s.%s' % (clsname, st.name), st, clsname, None)
+        flat.methods[st.name] = f2
+        for x in walk_local(st):
+          if isinstance(x, ast.Name):
+            x._mod = m
+            x._fi = f2
+    cache[key] = flat
+    return flat
+
 
 def fi_class(fi):
   p = fi
